@@ -150,6 +150,10 @@ var parseSpellings = map[string][]string{
 		"interval day to second(6)", "interval hour", "bpchar", "name", "citext", "my_type", "public.my_type", "hstore", "int64",
 		"geometry", "ltree", "varchar", "varchar(0)", "char", "char(0)", "float(0)", "float(1)", "float(24)", "float(25)", "float(53)",
 		"numeric(0)", "numeric(10,0)", "numeric", "serial", "bigserial", "oid", "regclass", "anyelement", "xid8",
+		// aliases and bare forms
+		"varbit", "varbit(5)", "bit varying(1)", "timestamptz", "timestamptz(3)", "timetz", "timetz(0)", "int2", "int4", "int8", "int",
+		"float4", "float8", "bool", "boolean", "decimal", "decimal(10,2)", "serial2", "serial4", "serial8", "smallserial",
+		"character varying(1)", "character(1)", "char(1)", "varchar(1)", "interval", "interval second", "interval day to second",
 	},
 	"sqlite": {
 		"varchar(10)", "varchar(0)", "numeric(10,2)", "numeric(0,0)", "numeric(0)", "decimal(10)", "unsigned big int", "double precision",
@@ -176,10 +180,29 @@ type gridType struct {
 // typeGrid builds the full list of grid types of a dialect: every registry spec × its attribute grid,
 // the extra database spellings, and for PostgreSQL the array forms of every element spelling plus enums.
 func typeGrid(d *dialect, thorough bool) (grid []gridType, nspecs int) {
+	seenParse := map[string]bool{}
+	for _, t := range parseSpellings[d.name] {
+		seenParse[t] = true
+	}
 	for _, sp := range d.reg.Specs() {
 		nspecs++
 		for _, tc := range specGrid(sp, thorough) {
 			grid = append(grid, gridType{TC: tc, Spec: sp.Name})
+			// the same grid point as a struct literal (parameters not decided by ParseType) …
+			lt := tc
+			lt.Src = "lit"
+			grid = append(grid, gridType{TC: lt, Spec: sp.Name})
+			// … and, for the bare type (every optional parameter absent) and its one-argument forms, as
+			// the raw database spelling fed to ParseType.
+			if len(tc.Args) <= 1 && sp.FromSpec == nil {
+				ta, _ := hclAttrs(tc.Args)
+				if len(ta) == len(tc.Args) {
+					if txt, err := d.reg.PrintType(&schemahcl.Type{T: sp.T, Attrs: ta}); err == nil && !seenParse[txt] {
+						seenParse[txt] = true
+						grid = append(grid, gridType{TC: TypeCase{Src: "parse", Text: txt}, Spec: sp.Name})
+					}
+				}
+			}
 		}
 	}
 	for _, t := range parseSpellings[d.name] {
@@ -207,7 +230,7 @@ func typeGrid(d *dialect, thorough bool) (grid []gridType, nspecs int) {
 			case "parse":
 				el = g.TC.Text
 			}
-			if !seen[el] {
+			if el != "" && !seen[el] {
 				seen[el] = true
 				elems = append(elems, el)
 			}
